@@ -141,7 +141,10 @@ impl Http3Codec {
                 Ok(None)
             }
             QuicSocketEvent::Close(stream_id) => {
-                let _ = self.on_stream_shutdown(stream_id, None);
+                // The client has finished its half of the stream. Its reader has to notice the
+                // end of the request body, but the response may still be on its way: closing
+                // the other half here would cut it off.
+                let _ = self.on_stream_readable(stream_id);
                 Ok(None)
             }
         }
